@@ -171,7 +171,8 @@ Section Z.
     - rewrite finish_chunk_s. destruct (finish_chunk oA _ _ _); [|reflexivity].
       change (MField rawp tmode) with (strip_mode (MField rawp tmode)) at 1. rewrite Hrec.
       destruct (rec (MField rawp tmode) rest) as [| | |fs rest'| | | |]; simpl; try reflexivity.
-      rewrite add_str_s, <- map_rev, <- map_app. apply (Hrec (MParts cl' rawp tmode start (rev fs ++ add_str oA t start (length rest) acc))).
+      rewrite add_str_s, <- map_rev, <- map_app.
+      match goal with |- rec' (MParts ?a ?b ?c ?d (map strip ?e)) ?u = _ => apply (Hrec (MParts a b c d e)) end.
   Qed.
 
   Lemma field_after_s rawp tmode dbg start values m ft conv s6 :
